@@ -138,8 +138,14 @@ Section Loops.
         match make_entry env fo ko sfs keys ek with
         | Ok (mk, nfs) =>
             if existsb nan_key mk then (Some (TList (tl_insert mk (TCont nfs) es)), Panic) else
-            let '(e', r) := rec s (Some (TCont nfs)) prest in
-            (Some (TList (match e' with Some e'' => tl_insert mk e'' es | None => es end)), r)
+            match tl_find mk es with
+            | Some e_old =>
+                let '(e', r) := rec s (Some e_old) prest in
+                (Some (TList (match e' with Some e'' => tl_insert mk e'' es | None => es end)), r)
+            | None =>
+                let '(e', r) := rec s (Some (TCont nfs)) prest in
+                (Some (TList (match e' with Some e'' => tl_insert mk e'' es | None => es end)), r)
+            end
         | Err => (Some (TList es), Err)
         | Panic => (Some (TList es), Panic)
         end
@@ -1885,7 +1891,7 @@ Section SetSpec.
         { intros acc Ef -> Hi. unfold set_insert_new in Hi.
           destruct (s_init o) eqn:Ei; [|injection Hi as <- <-; split; auto; congruence].
           destruct (make_entry_ok env fo ko sfs (ekeys e0) Hnd keys mk Hkl Hkd Hpk) as (nfs & Hm & Hks).
-          rewrite Hm in Hi. destruct (existsb nan_key mk); [discriminate|].
+          rewrite Hm in Hi. destruct (existsb nan_key mk); [discriminate|]. rewrite Ef in Hi.
           destruct (set_rec env fo ko o tv (S f0) (SList false keys mn mx sfs) (Some (TCont nfs)) (e1 :: prest')) as [e' r] eqn:Er.
           injection Hi as <- ->.
           assert (Hne : nwf (SList false keys mn mx sfs) (TCont nfs)) by (apply nwf_cont; eapply key_struct_nfields; eauto).
